@@ -29,11 +29,15 @@
                              such an iterator).  Observing it (ItGet) is still
                              predictable: Index() = it.value, GetConst() = current
                              map at that key.
-     ifresh : no in-place edit of the index of vector iv happened since this
-              iterator's last own move (after ItBegin/ItFrom/ItNext the iterator's
-              node is a valid node holding it.value).  Conservative: cleared by
+     ifresh : the iterator's node is known to be a valid node of the index tree
+              holding it.value: its last own move (ItBegin/ItFrom/ItNext) deleted no
+              key — skip() deletes key i AFTER the iterator stepped past it, and
+              that deletion may rotate / value-swap the very node the iterator
+              now sits on (seen on the implementation) — and no in-place edit of
+              the index of vector iv happened since.  Conservative: cleared by
               every operation that may touch the index of iv ([touches]) and by
-              every move of ANOTHER iterator on iv (its skip() may delete keys).
+              every move / creation of ANOTHER iterator on iv whose skip() deleted
+              a key ([moved]: the index got shorter).
    No proofs in this file. *)
 From Coq Require Import ZArith List Bool Lia.
 From ADV Require Import C11.Model.
@@ -110,6 +114,11 @@ Definition touches (o : op) : list nat :=
   | Joint3 t o2 o3 => t :: operand_h o2 ++ operand_h o3
   end.
 
+(* a move / creation of an iterator on vector t took v to v': it edited the index
+   iff skip() deleted a key *)
+Definition moved (v v' : svec) (t : nat) : list nat :=
+  if Nat.eqb (length (idx v')) (length (idx v)) then [] else [t].
+
 Definition set_fresh (b : bool) (it : iter) : iter :=
   {| iv := iv it; icur := icur it; imd := imd it; ifresh := b |}.
 Definition clear_fresh (ts : list nat) (l : list iter) : list iter :=
@@ -155,8 +164,9 @@ Definition new_iter (wi : worldi) (t : nat) (r : option (svec * option Z)) : wor
     match r with
     | Some (v', cur) =>
         let w' := setv (base wi) t v' in
-        let it := {| iv := t; icur := cur; imd := Attached; ifresh := true |} in
-        ({| base := w'; its := clear_fresh [t] (its wi) ++ [it] |}, (K_OK, it_obs w' it))
+        let it := {| iv := t; icur := cur; imd := Attached;
+                     ifresh := Nat.eqb (length (idx v')) (length (idx (getv (base wi) t))) |} in
+        ({| base := w'; its := clear_fresh (moved (getv (base wi) t) v' t) (its wi) ++ [it] |}, (K_OK, it_obs w' it))
     | None => (wi, (K_FUEL, []))
     end
   else (wi, (K_NOIT, [])).
@@ -187,8 +197,11 @@ Definition step_it (wi : worldi) (o : opi) : worldi * (Z * list Z) :=
             | Some (Some (v', cur')) =>
                 let w' := setv w (iv it) v' in
                 let it' := {| iv := iv it; icur := cur'; imd := imd it;
-                              ifresh := match imd it with Attached => true | _ => false end |} in
-                ({| base := w'; its := upd k it' (clear_fresh [iv it] (its wi)) |}, (K_OK, it_obs w' it'))
+                              ifresh := match imd it with
+                                        | Attached => Nat.eqb (length (idx v')) (length (idx (getv w (iv it))))
+                                        | _ => false end |} in
+                ({| base := w'; its := upd k it' (clear_fresh (moved (getv w (iv it)) v' (iv it)) (its wi)) |},
+                 (K_OK, it_obs w' it'))
             end
         end
       else (wi, (K_NOIT, []))
